@@ -443,12 +443,133 @@ theorem Apply_ops_cf (c : ACtx) (afs : List Doc) (s s' : AState) (upd : List (St
 
 /-! ### checkPaths: the up-front conflict test over the literal paths of the update -/
 
+/-- the segments at the first index, within the common length, where the two paths differ. -/
+def firstDiff (p q : Path) : Option (String × String) :=
+  match p, q with
+  | [], _ => none
+  | _ :: _, [] => none
+  | a :: p', b :: q' => if a = b then firstDiff p' q' else some (a, b)
+
+theorem firstDiff_some_iff (p q : Path) (a b : String) :
+    firstDiff p q = some (a, b) ↔
+      ∃ k : Nat, p[k]? = some a ∧ q[k]? = some b ∧ a ≠ b ∧ ∀ m, m < k → p[m]? = q[m]? := by
+  induction p generalizing q with
+  | nil =>
+    unfold firstDiff
+    constructor
+    · intro h; cases h
+    · rintro ⟨k, h, _⟩; simp at h
+  | cons x p' ih =>
+    cases q with
+    | nil =>
+      unfold firstDiff
+      constructor
+      · intro h; cases h
+      · rintro ⟨k, _, h, _⟩; simp at h
+    | cons y q' =>
+      unfold firstDiff
+      split
+      · rename_i hxy
+        subst hxy
+        rw [ih]
+        constructor
+        · rintro ⟨k, h1, h2, h3, h4⟩
+          refine ⟨k + 1, by simpa using h1, by simpa using h2, h3, ?_⟩
+          intro m hm
+          cases m with
+          | zero => rfl
+          | succ m => simpa using h4 m (by omega)
+        · rintro ⟨k, h1, h2, h3, h4⟩
+          cases k with
+          | zero =>
+            simp at h1 h2
+            exact absurd (h1.symm.trans h2) h3
+          | succ k =>
+            refine ⟨k, by simpa using h1, by simpa using h2, h3, ?_⟩
+            intro m hm
+            simpa using h4 (m + 1) (by omega)
+      · rename_i hxy
+        constructor
+        · intro h
+          cases h
+          exact ⟨0, rfl, rfl, hxy, fun m hm => absurd hm (Nat.not_lt_zero m)⟩
+        · rintro ⟨k, h1, h2, h3, h4⟩
+          cases k with
+          | zero => simp at h1 h2; rw [h1, h2]
+          | succ k =>
+            have := h4 0 (by omega)
+            simp at this
+            exact absurd this hxy
+
+/-- declaratively: at the first differing segment exactly one of the two is positional. -/
+def PositionalClash (p q : Path) : Prop :=
+  ∃ a b : String, firstDiff p q = some (a, b) ∧ isPositional a ≠ isPositional b
+
+theorem positionalClash_iff (p q : Path) : positionalClash p q = true ↔ PositionalClash p q := by
+  induction p generalizing q with
+  | nil =>
+    unfold positionalClash PositionalClash firstDiff
+    simp
+  | cons x p' ih =>
+    cases q with
+    | nil => unfold positionalClash PositionalClash firstDiff; simp
+    | cons y q' =>
+      unfold positionalClash PositionalClash firstDiff
+      by_cases hxy : x = y
+      · subst hxy
+        simp only [bne_self_eq_false, Bool.false_eq_true, if_false, if_true]
+        exact ih q'
+      · simp only [hxy, if_false, bne_iff_ne, ne_eq, not_false_eq_true, if_true]
+        constructor
+        · intro h; exact ⟨x, y, rfl, h⟩
+        · rintro ⟨a, b, e, h⟩; cases e; exact h
+
+theorem firstDiff_swap (p q : Path) : firstDiff q p = (firstDiff p q).map (fun ab => (ab.2, ab.1)) := by
+  induction p generalizing q with
+  | nil => cases q <;> simp [firstDiff]
+  | cons x p' ih =>
+    cases q with
+    | nil => simp [firstDiff]
+    | cons y q' =>
+      unfold firstDiff
+      by_cases hxy : x = y
+      · subst hxy; simp only [if_true]; exact ih q'
+      · have : ¬ y = x := fun e => hxy e.symm
+        simp [hxy, this]
+
+theorem PositionalClash_symm {p q : Path} (h : PositionalClash p q) : PositionalClash q p := by
+  obtain ⟨a, b, e, hne⟩ := h
+  exact ⟨b, a, by rw [firstDiff_swap, e]; rfl, fun h' => hne h'.symm⟩
+
+theorem positionalClash_comm (p q : Path) : positionalClash p q = positionalClash q p := by
+  cases h1 : positionalClash p q <;> cases h2 : positionalClash q p <;> try rfl
+  · have := PositionalClash_symm ((positionalClash_iff _ _).mp h2)
+    rw [← positionalClash_iff, h1] at this; cases this
+  · have := PositionalClash_symm ((positionalClash_iff _ _).mp h1)
+    rw [← positionalClash_iff, h2] at this; cases this
+
+/-- the index form of the declarative statement. -/
+theorem PositionalClash_index_iff (p q : Path) :
+    PositionalClash p q ↔
+      ∃ (k : Nat) (a b : String), p[k]? = some a ∧ q[k]? = some b ∧ a ≠ b ∧ (∀ m, m < k → p[m]? = q[m]?) ∧
+        isPositional a ≠ isPositional b := by
+  unfold PositionalClash
+  constructor
+  · rintro ⟨a, b, e, h⟩
+    obtain ⟨k, h1, h2, h3, h4⟩ := (firstDiff_some_iff p q a b).mp e
+    exact ⟨k, a, b, h1, h2, h3, h4, h⟩
+  · rintro ⟨k, a, b, h1, h2, h3, h4, h⟩
+    exact ⟨a, b, (firstDiff_some_iff p q a b).mpr ⟨k, h1, h2, h3, h4⟩, h⟩
+
+/-- two paths of one update conflict: prefix-related, or a positional clash. -/
+def conflicting (p q : Path) : Bool := related p q || positionalClash p q
+
 /-- the executable test (with the paths `seen` already inserted) finds nothing iff no inserted path
-    is related to a listed one and the listed ones are pairwise unrelated. -/
+    conflicts with a listed one and the listed ones are pairwise conflict free. -/
 theorem pathsConflict_false_iff (seen : List Path) (ps : List String) :
     pathsConflict seen ps = false ↔
-      (∀ rp ∈ seen, ∀ q ∈ ps, related rp (splitPath q) = false) ∧
-        ps.Pairwise (fun a b => related (splitPath a) (splitPath b) = false) := by
+      (∀ rp ∈ seen, ∀ q ∈ ps, conflicting rp (splitPath q) = false) ∧
+        ps.Pairwise (fun a b => conflicting (splitPath a) (splitPath b) = false) := by
   induction ps generalizing seen with
   | nil => simp [pathsConflict]
   | cons path r ih =>
@@ -462,39 +583,65 @@ theorem pathsConflict_false_iff (seen : List Path) (ps : List String) :
       · intro h; cases h
       · intro h
         have := h.1 rp hrp path List.mem_cons_self
-        unfold related at this
-        rw [this] at hrel; cases hrel
+        simp only [conflicting, related, Bool.or_eq_false_iff] at this
+        rw [this.1.1, this.1.2] at hrel; cases hrel
     · rename_i hany
       simp only [List.any_eq_true, not_exists, not_and, Bool.not_eq_true] at hany
-      rw [ih, List.pairwise_cons]
-      constructor
-      · rintro ⟨h1, h2⟩
-        refine ⟨?_, ?_, h2⟩
-        · intro rp hrp q hq
-          rcases List.mem_cons.mp hq with e | hq
-          · subst e; exact hany rp hrp
-          · exact h1 rp (List.mem_append_left _ hrp) q hq
-        · intro q hq
-          exact h1 _ (List.mem_append_right _ (List.mem_singleton.mpr rfl)) q hq
-      · rintro ⟨h1, h2, h3⟩
-        refine ⟨?_, h3⟩
-        intro rp hrp q hq
-        rcases List.mem_append.mp hrp with hrp | hrp
-        · exact h1 rp hrp q (List.mem_cons_of_mem _ hq)
-        · rw [List.mem_singleton.mp hrp]; exact h2 q hq
+      split
+      · rename_i hany2
+        simp only [List.any_eq_true] at hany2
+        obtain ⟨rp, hrp, hrel⟩ := hany2
+        constructor
+        · intro h; cases h
+        · intro h
+          have := h.1 rp hrp path List.mem_cons_self
+          simp only [conflicting, Bool.or_eq_false_iff] at this
+          rw [positionalClash_comm, this.2] at hrel; cases hrel
+      · rename_i hany2
+        simp only [List.any_eq_true, not_exists, not_and, Bool.not_eq_true] at hany2
+        have hnew : ∀ rp ∈ seen, conflicting rp (splitPath path) = false := by
+          intro rp hrp
+          have h1 := hany rp hrp
+          have h2 := hany2 rp hrp
+          rw [positionalClash_comm] at h2
+          simp only [conflicting, related, h2, Bool.or_false]
+          exact h1
+        rw [ih, List.pairwise_cons]
+        constructor
+        · rintro ⟨h1, h2⟩
+          refine ⟨?_, ?_, h2⟩
+          · intro rp hrp q hq
+            rcases List.mem_cons.mp hq with e | hq
+            · subst e; exact hnew rp hrp
+            · exact h1 rp (List.mem_append_left _ hrp) q hq
+          · intro q hq
+            exact h1 _ (List.mem_append_right _ (List.mem_singleton.mpr rfl)) q hq
+        · rintro ⟨h1, h2, h3⟩
+          refine ⟨?_, h3⟩
+          intro rp hrp q hq
+          rcases List.mem_append.mp hrp with hrp | hrp
+          · exact h1 rp hrp q (List.mem_cons_of_mem _ hq)
+          · rw [List.mem_singleton.mp hrp]; exact h2 q hq
 
 /-- the declarative conflict statement: two paths of the list, at positions `i < j`, are
-    segment-wise prefix-related (one is a prefix of the other; equal paths included). -/
+    segment-wise prefix-related (one is a prefix of the other; equal paths included) — or (second
+    disjunct) at their first differing segment exactly one of the two is positional. -/
 def PrefixRelatedPair (ps : List String) : Prop :=
   ∃ (i j : Nat) (p q : String), i < j ∧ ps[i]? = some p ∧ ps[j]? = some q ∧
-    (isPrefixOf (splitPath p) (splitPath q) = true ∨ isPrefixOf (splitPath q) (splitPath p) = true)
+    (isPrefixOf (splitPath p) (splitPath q) = true ∨ isPrefixOf (splitPath q) (splitPath p) = true ∨
+      PositionalClash (splitPath p) (splitPath q))
+
+theorem conflicting_true_iff (p q : Path) :
+    conflicting p q = true ↔
+      (isPrefixOf p q = true ∨ isPrefixOf q p = true ∨ PositionalClash p q) := by
+  simp only [conflicting, related, Bool.or_eq_true, positionalClash_iff, or_assoc]
 
 /-- `pathsConflict_iff`: the executable test of `checkPaths` (starting from the empty tree) fires
-    exactly when two listed paths are prefix-related. -/
+    exactly when two listed paths are prefix-related or clash positionally. -/
 theorem pathsConflict_iff (ps : List String) : pathsConflict [] ps = true ↔ PrefixRelatedPair ps := by
   constructor
   · intro h
-    have hnp : ¬ ps.Pairwise (fun a b => related (splitPath a) (splitPath b) = false) := by
+    have hnp : ¬ ps.Pairwise (fun a b => conflicting (splitPath a) (splitPath b) = false) := by
       intro hp
       have := (pathsConflict_false_iff [] ps).mpr ⟨fun rp hrp => (nomatch hrp), hp⟩
       rw [this] at h; cases h
@@ -502,8 +649,8 @@ theorem pathsConflict_iff (ps : List String) : pathsConflict [] ps = true ↔ Pr
     simp only [Classical.not_forall] at hnp
     obtain ⟨i, j, hi, hj, hij, hr⟩ := hnp
     refine ⟨i, j, ps[i], ps[j], hij, List.getElem?_eq_getElem hi, List.getElem?_eq_getElem hj, ?_⟩
-    simp only [related, Bool.not_eq_false, Bool.or_eq_true] at hr
-    exact hr
+    simp only [Bool.not_eq_false] at hr
+    exact (conflicting_true_iff _ _).mp hr
   · rintro ⟨i, j, p, q, hij, hp, hq, hr⟩
     cases hc : pathsConflict [] ps with
     | true => rfl
@@ -513,11 +660,8 @@ theorem pathsConflict_iff (ps : List String) : pathsConflict [] ps = true ↔ Pr
       obtain ⟨hi, ei⟩ := List.getElem?_eq_some_iff.mp hp
       obtain ⟨hj, ej⟩ := List.getElem?_eq_some_iff.mp hq
       have h := this i j hi hj hij
-      rw [ei, ej] at h
-      simp only [related, Bool.or_eq_false_iff] at h
-      rcases hr with hr | hr
-      · rw [h.1] at hr; cases hr
-      · rw [h.2] at hr; cases hr
+      rw [ei, ej, (conflicting_true_iff _ _).mpr hr] at h
+      cases h
 
 /-- `Apply` rejects (plain error) when the test fires — whatever the document, the context and
     the array filters, and before any operator runs. -/
@@ -562,26 +706,35 @@ theorem Apply_ok_ops (c : ACtx) (d u : Doc) (afs : List Doc) (d' : Doc) (ch : Li
     cases h
     exact ⟨s, hs, rfl, rfl⟩
 
-/-- an accepted update: its literal paths are pairwise unrelated. -/
+/-- an accepted update: its literal paths are pairwise unrelated and free of positional clashes. -/
 theorem Apply_ok_pairwise (c : ACtx) (d u : Doc) (afs : List Doc) (r : Doc × List (String × V))
     (h : Apply c d u afs = .ok r) :
-    (updatePaths u).Pairwise fun a b => related (splitPath a) (splitPath b) = false :=
-  ((pathsConflict_false_iff [] _).mp (Apply_ok_noconflict c d u afs r h)).2
+    (updatePaths u).Pairwise fun a b =>
+      related (splitPath a) (splitPath b) = false ∧ positionalClash (splitPath a) (splitPath b) = false := by
+  have := ((pathsConflict_false_iff [] _).mp (Apply_ok_noconflict c d u afs r h)).2
+  refine this.imp ?_
+  intro a b hab
+  simpa only [conflicting, Bool.or_eq_false_iff] using hab
 
-/-- an accepted update: no two literal paths (positions i < j) are prefix-related. -/
+/-- an accepted update: no two literal paths (positions i < j) are prefix-related or clash
+    positionally. -/
 theorem Apply_ok_unrelated (c : ACtx) (d u : Doc) (afs : List Doc) (r : Doc × List (String × V))
     (h : Apply c d u afs = .ok r) (i j : Nat) (p q : String) (hij : i < j)
     (hp : (updatePaths u)[i]? = some p) (hq : (updatePaths u)[j]? = some q) :
-    isPrefixOf (splitPath p) (splitPath q) = false ∧ isPrefixOf (splitPath q) (splitPath p) = false := by
+    isPrefixOf (splitPath p) (splitPath q) = false ∧ isPrefixOf (splitPath q) (splitPath p) = false ∧
+      ¬ PositionalClash (splitPath p) (splitPath q) := by
   have hc := Apply_ok_noconflict c d u afs r h
-  cases h1 : isPrefixOf (splitPath p) (splitPath q) with
-  | true =>
-    rw [(pathsConflict_iff _).mpr ⟨i, j, p, q, hij, hp, hq, .inl h1⟩] at hc; cases hc
-  | false =>
-    cases h2 : isPrefixOf (splitPath q) (splitPath p) with
-    | true =>
-      rw [(pathsConflict_iff _).mpr ⟨i, j, p, q, hij, hp, hq, .inr h2⟩] at hc; cases hc
-    | false => exact ⟨rfl, rfl⟩
+  have no : ¬ (isPrefixOf (splitPath p) (splitPath q) = true ∨ isPrefixOf (splitPath q) (splitPath p) = true ∨
+      PositionalClash (splitPath p) (splitPath q)) := by
+    intro hr
+    rw [(pathsConflict_iff _).mpr ⟨i, j, p, q, hij, hp, hq, hr⟩] at hc; cases hc
+  refine ⟨?_, ?_, fun h3 => no (.inr (.inr h3))⟩
+  · cases h1 : isPrefixOf (splitPath p) (splitPath q) with
+    | true => exact absurd (.inl h1) no
+    | false => rfl
+  · cases h2 : isPrefixOf (splitPath q) (splitPath p) with
+    | true => exact absurd (.inr (.inl h2)) no
+    | false => rfl
 
 theorem fieldPaths_key_mem (op : String) (fields : List (String × V)) (key : String) (v : V)
     (hf : (key, v) ∈ fields) : key ∈ fieldPaths op fields := by
